@@ -558,6 +558,14 @@ func (e *c10Env) invalidInputs(sc cases.ScanCase, repo *gitrepo.Repo, ri int, on
 		{"--threshold=x"}, {"--names=foo"}, {"--json", "--json-version=3"}, {"--no-such-flag"}, {"--include", "/(/"},
 		{"--include", "@nosuchgroup"}, {"--refgroup=nosuchgroup"}, {"--exclude", "@"}, {"nosuchref"}, {"refs/heads/main:no/such/path"},
 		{"--json-version=x", "--json"}, {"--progress=maybe"}, {"--verbose=perhaps"}, {"--critical=2"},
+		// one invalid item among valid ones, in every position: the valid neighbours must not redeem it
+		{"nosuchref", "refs/heads/main"}, {"refs/heads/main", "nosuchref"}, {"refs/heads/main", "nosuchref", "refs/heads/topic"},
+		{"nosuchref", "refs/heads/main", "refs/tags/v1"}, {"--json", "nosuchref", "refs/heads/main"},
+		{"refs/heads/topic..refs/heads/main", "refs/heads/main"}, {"^refs/heads/topic", "refs/heads/main"},
+		{"refs/heads/main:no/such/path", "refs/heads/main"}, {"refs/heads/main", "refs/heads/main^{tag}", "refs/heads/topic"},
+		{"--threshold=x", "--threshold=1"}, {"--names=foo", "--names=full"}, {"--include", "/(/", "--include", "refs/heads"},
+		{"--include", "@nosuchgroup", "--include", "refs/heads"}, {"--exclude", "refs/tags", "--include", "@nosuchgroup", "--branches"},
+		{"--branches", "--no-such-flag", "--tags"},
 	} {
 		args := append([]string{"--no-progress"}, args...)
 		if strings.HasPrefix(args[1], "--progress=") {
